@@ -81,12 +81,14 @@ theorem accepted_key_decodes (P : Params) (hP : P.Sane) (k : Key) (hv : k.Valid 
 theorem rsa_bundle_decodes (P : Params) (r : RsaKey) :
     ∃ p, marshal (.rsa r) = some p ∧ parse P p = .ok (.rsa r) := ⟨_, rfl, rfl⟩
 
-/-- T5 `topem_writes_inner_key`: for RSA keys and ECDSA keys on NIST curves `ToPEM` succeeds and its
-    PRIVATE KEY block carries the very key structure that `Encode` wrapped (PKCS#1 resp. SEC 1); for the SM2
-    curve `convertBag` reports an error (the standard library's marshaller does not know the curve). -/
+/-- T5 `topem_writes_inner_key` (restated with the repair of `convertBag`): for EVERY usable key that `Encode`
+    accepts - RSA, ECDSA on a NIST curve, SM2 - `ToPEM` succeeds and its PRIVATE KEY block carries the very key
+    structure that `Encode` wrapped (PKCS#1 resp. SEC 1 with the scalar padded to the size of the curve).
+    Before the repair the statement had an exception: `toPEM (.ecdsa .sm2 d) = none`, every SM2 bundle was
+    refused ("x509: unknown elliptic curve"). -/
 theorem topem_writes_inner_key (P : Params) (hP : P.Sane) (k : Key) (p : P8) (pk : PKey) (hv : k.Valid P)
     (h : marshal k = some p) (hq : parse P p = .ok pk) :
-    toPEM pk = (match pk with | .ecdsa .sm2 _ => none | _ => some p.inner) := by
+    toPEM pk = some p.inner := by
   have hm := parse_marshal P hP k p hv h
   rw [hq] at hm
   cases k with
@@ -100,19 +102,33 @@ theorem topem_writes_inner_key (P : Params) (hP : P.Sane) (k : Key) (p : P8) (pk
     simp only [marshal] at h
     split at h
     · exact absurd h (by simp)
-    · rename_i hc
-      simp only [Option.some.injEq] at h
+    · simp only [Option.some.injEq] at h
       subst h
       simp only [view] at hm
       cases hm
-      cases c <;> simp_all [toPEM]
+      rfl
   | sm2 c d =>
     simp only [marshal, Option.some.injEq] at h
     subst h
     simp only [view] at hm
     cases hm
-    cases c <;> simp [toPEM]
+    rfl
   | other => simp [marshal] at h
+
+/-- T6 `sm2_bundle_topem` (the repaired behaviour on its own): an SM2 key below the group order goes through
+    `Encode`, comes back from the decoder as an EC key on the SM2 curve with the same scalar, and `ToPEM`
+    writes it as SEC 1 on that curve - no error. -/
+theorem sm2_bundle_topem (P : Params) (hP : P.Sane) (d : Nat) (hd : d < P.order .sm2) :
+    ∃ p, marshal (.sm2 .sm2 d) = some p ∧ parse P p = .ok (.ecdsa .sm2 d) ∧
+      toPEM (.ecdsa .sm2 d) = some (.sec1 1 (i2ospR 32 d) (.known .sm2)) := by
+  obtain ⟨p, pk, hp, hq, hv⟩ := accepted_key_decodes P hP (.sm2 .sm2 d) hd rfl
+  simp only [view, Option.some.injEq] at hv
+  subst hv
+  exact ⟨p, hp, hq, rfl⟩
+
+/-- `ToPEM` converts every key the decoder can return -/
+theorem topem_total (pk : PKey) : (toPEM pk).isSome := by
+  cases pk <;> rfl
 
 /-- other algorithm identifiers are still refused -/
 theorem unknown_algorithm_rejected (P : Params) (param : Option CurveOID) (i : Inner) :
@@ -140,6 +156,7 @@ example : parse toyP ⟨.rsaEncryption, none, .pkcs1 ⟨3233, 17, 413⟩⟩ = .o
 example : (marshal (.ecdsa .p256 5)).bind (fun p => (parse toyP p).toOption) = some (.ecdsa .p256 5) := by decide
 example : (marshal (.sm2 .sm2 7)).bind (fun p => (parse toyP p).toOption) = some (.ecdsa .sm2 7) := by decide
 example : marshal (.ecdsa .sm2 7) = none := rfl
-example : toPEM (.ecdsa .sm2 7) = none := rfl
+example : toPEM (.ecdsa .sm2 7) = some (.sec1 1 (i2ospR 32 7) (.known .sm2)) := rfl
+example : ∃ p, marshal (.sm2 .sm2 7) = some p ∧ toPEM (.ecdsa .sm2 7) = some p.inner := ⟨_, rfl, rfl⟩
 
 end Props.C17Key
